@@ -1048,6 +1048,32 @@ def _finite_predicates():
             except Exception:
                 pass
         return g
+    # isclose/allclose: numpy's own definition |a - b| <= atol + rtol*|b| (finite values), elementwise, so that the
+    # comparison forks on the symbolic values instead of meeting the compiled isfinite loop
+    real_isclose, real_allclose = np.isclose, np.allclose
+
+    def _has_sym(x):
+        if isinstance(x, Sym):
+            return True
+        if isinstance(x, np.ndarray):
+            return x.dtype == object and any(isinstance(v, Sym) for v in x.ravel())
+        if isinstance(x, (list, tuple)):
+            return any(_has_sym(v) for v in x)
+        return False
+
+    def isclose(a, b, rtol=1e-05, atol=1e-08, equal_nan=False):
+        if not (_has_sym(a) or _has_sym(b)):
+            return real_isclose(a, b, rtol=rtol, atol=atol, equal_nan=equal_nan)
+        A, B = np.broadcast_arrays(np.asarray(a, dtype=object), np.asarray(b, dtype=object))
+        out = np.empty(A.shape, dtype=bool)
+        for idx in np.ndindex(A.shape):
+            x, y = A[idx], B[idx]
+            out[idx] = bool(abs(x - y) <= atol + rtol * abs(y))     # one fork per element (abs is an ite term)
+        return out if out.shape != () else bool(out)
+
+    def allclose(a, b, rtol=1e-05, atol=1e-08, equal_nan=False):
+        return bool(np.all(isclose(a, b, rtol=rtol, atol=atol, equal_nan=equal_nan)))
+    np.isclose, np.allclose = isclose, allclose
     np.isfinite, np.isnan, np.isinf = mk("isfinite", True), mk("isnan", False), mk("isinf", False)
     for k_ in realu:
         setattr(np, k_, mku(k_))
@@ -1055,6 +1081,7 @@ def _finite_predicates():
         yield
     finally:
         np.isfinite, np.isnan, np.isinf = real["isfinite"], real["isnan"], real["isinf"]
+        np.isclose, np.allclose = real_isclose, real_allclose
         for k_, f_ in realu.items():
             setattr(np, k_, f_)
 
@@ -1319,12 +1346,18 @@ def all_close(A, B, ctxobj, tol=None):
     return SymBool(z3.And(*conds)) if len(conds) > 1 else SymBool(conds[0])
 
 
+CONCRETE_RUN = False
+
+
 def run_concrete(harness, values, tol=1e-6):
     global _CTX
+    global CONCRETE_RUN
     c = ConcreteCtx(values, tol)
     prev = _CTX
     _CTX = None
     status, exc = "ok", None
+    prev_cr = CONCRETE_RUN
+    CONCRETE_RUN = True          # model caches hand out fresh objects: nothing symbolic may linger in a replayed model
     try:
         harness(c)
     except Infeasible:
@@ -1337,6 +1370,7 @@ def run_concrete(harness, values, tol=1e-6):
         status, exc = "exception", e
     finally:
         _CTX = prev
+        CONCRETE_RUN = prev_cr
     return c, status, exc
 
 
